@@ -239,18 +239,18 @@ pub fn run(prop: &str, tier: &str, replay: Option<&str>) -> i32 {
     // like under a given attribute type never changes the string type the caller chose
     {
         let types = [DnTypeSpec::C, DnTypeSpec::St, DnTypeSpec::L, DnTypeSpec::O, DnTypeSpec::Ou, DnTypeSpec::Cn, DnTypeSpec::Custom(vec![2, 5, 4, 5]), DnTypeSpec::Custom(vec![1, 2, 840, 113549, 1, 9, 1]), DnTypeSpec::Custom(vec![0, 9, 2342, 19200300, 100, 1, 25])];
-        let values = ["", "D", "US", "de", "U1", "12", "USA", "a b", "x@y.z", "1.2.3.4", "example"];
+        let values = crate::certspace::value_shapes();
         let ctxs = [stub_self_ctx(Alg::Ed25519, 1), stub_issuer_ctx(Alg::EcP256, &DnSpec::cn("issuer"), &KeyIdSpec::Sha256, Alg::Ed25519, "pair")];
         let mut cases: Vec<DnSpec> = Vec::new();
         for t in &types {
             for k in ALL_STR_KINDS {
-                for v in values {
+                for v in &values {
                     cases.push(DnSpec(vec![(t.clone(), k, v.to_string())]));
                     cases.push(DnSpec(vec![(DnTypeSpec::O, StrKind::Utf8, "first".into()), (t.clone(), k, v.to_string())]));
                 }
             }
         }
-        let sec = Section::new("sweep/dn-type x string-kind x value-shape", "every attribute type (6 standard, serialNumber and emailAddress as custom OIDs) x every string kind x 10 value shapes (empty, one/two/three letters, digits, mixed, mail-like, ip-like), alone and after another attribute, self-signed and issuer-signed");
+        let sec = Section::new("sweep/dn-type x string-kind x value-shape", "every attribute type (6 standard, serialNumber and emailAddress as custom OIDs) x every string kind x 21 value shapes (empty, one/two/three letters, digits, mixed, mail-like, ip-like; NUL, blank, line break, dot, U+FEFF at either edge), alone and after another attribute, self-signed and issuer-signed");
         run::sweep_cases(&sec, &cases, &|c| format!("dn={:?}", c.0), &|c| {
             let mut st = CertState::default();
             st.dn = c.clone();
